@@ -398,6 +398,11 @@ def judge_cap(trace, k, counters):
             counters["select_calls_checked"] = counters.get("select_calls_checked", 0) + 1
             if sc["k"] != per:
                 viol.append({"mech": "per-sample-cap", "msg": "family of %d with --internal-downsampling %d selected with per-sample cap %d (expected %d)" % (len(fam), k, sc["k"], per)})
+        sel = inst.get("select", [])
+        if sel and len(sel) == len(fam) and sum(sc["n_out"] for sc in sel) != len(inst["reads"]):
+            # conservation between the stages: the solver gets exactly the reads selected for the members of the family
+            viol.append({"mech": "selected-reads-not-handed-to-solver", "msg": "%s %s: %d reads selected for the family members (%r), %d reads in the solver's read set" % (
+                inst["chromosome"], fam, sum(sc["n_out"] for sc in sel), [sc["n_out"] for sc in sel], len(inst["reads"]))})
         positions = inst["positions"]
         worst = 0
         for p in positions:
